@@ -686,8 +686,11 @@ func (h *handler1) checkPacketLegal(pkt snPkts.Packet) error {
 		return nil
 	// Handler is switched to disconnected state _before_ client
 	// responds to DISCONNECT => we must enable DISCONNECT packet.
+	// A client which is not connected cannot go to sleep, though.
 	case *snPkts1.Disconnect:
-		return nil
+		if snPkt.Duration == 0 {
+			return nil
+		}
 	case *snPkts1.Publish:
 		// QOS 3 packets with short or predefined topics are allowed
 		// without prior CONNECT.
